@@ -201,7 +201,7 @@ def random_case(rng, i):
     other contract failure is attributed to nothing known."""
     pol = pol9.POLICIES[i % 9]
     regime = ("seq_wt", "seq_wb_roomy", "disjoint_wt", "overlap_wt", "overlap_wb", "seq_wb_tight",
-              "seq_wt", "disjoint_wt", "overlap_wt", "overlap_wb")[(i // 9) % 10]
+              "seq_big", "disjoint_wt", "overlap_wt", "overlap_wb")[(i // 9) % 10]
     lat = rng.choice(LATS)
     tick = TICKS[(i // 90) % len(TICKS)]
     seed = rng.randrange(1 << 30)
@@ -210,6 +210,12 @@ def random_case(rng, i):
         cap = rng.randint(1, K)
         prog = random_prog(rng, K, 1, 12, KINDS_W, (0, 0, 1, 3))
         cfg = world_cfg(K=K, cap=cap, wt=True, pol=pol, lat=lat, pre=pre_values(K, rng.sample(range(1, K + 1), rng.randint(0, K))), tick_ns=tick, seed=seed)
+    elif regime == "seq_big":        # longer runs over more keys: deeper policy states (ghost lists, clock rotations)
+        K = rng.choice((5, 6))
+        wt = rng.random() < 0.6
+        cap = rng.randint(2, 4) if wt else K
+        prog = random_prog(rng, K, 1, 30, KINDS_W, (0, 0, 0, 1, 2))
+        cfg = world_cfg(K=K, cap=cap, wt=wt, pol=pol, lat=lat, pre=pre_values(K, rng.sample(range(1, K + 1), rng.randint(0, K))), tick_ns=tick, seed=seed)
     elif regime == "seq_wb_roomy":
         K = rng.choice((2, 3))
         prog = random_prog(rng, K, 1, 12, KINDS_W, (0, 0, 1, 3))
